@@ -75,7 +75,7 @@ impl<'a> Gen<'a> {
             // queries whose target is a container or a function call that itself reads the event
             12 => format!("{{\"k\": {}, \"l\": {}}}.k", self.path(), self.path()),
             13 => format!("[{}, {}][1]", self.path(), self.path()),
-            14 => format!("(parse_json!(encode_json({})).zz ?? null)", self.path()),
+            14 => format!("parse_json!(encode_json({})).zz", self.path()),
             9 => format!("({} || {})", self.path(), self.path()),
             10 => format!("(exists({}) && {} == {})", self.npath(), self.path(), self.lit()),
             11 => format!("(({} ?? {}) ?? {})", { let p = self.path(); format!("to_int({})", self.any(p)) }, { let p = self.path(); format!("to_int({})", self.any(p)) }, self.lit()),
